@@ -315,28 +315,30 @@ def Graph.flip (g : Graph κ) : Graph κ :=
     nidTerminal := (g.nidTerminal.2, g.nidTerminal.1) }
 
 /-- `rename_node_id(nid_cur, nid_new)` -/
-def Graph.renameNodeId (g : Graph κ) (nidCur nidNew : Int) : Except Err (Graph κ) := do
-  if !(dHas g.nodes nidCur) then throw .value
-  if dHas g.nodes nidNew then throw .value
-  let (node, g) ← g.removeNode nidCur
-  pyAssert (node.nid == nidCur)
-  let g ← [false, true].foldlM (fun g d => do
-    let g ← (node.eids d).foldlM (fun g eid =>
-      g.modifyEdge eid (fun e => do
-        pyAssert (e.nid (!d) == nidCur)
-        pure (e.setNid (!d) nidNew))) g
-    pure (if g.term d == nidCur then g.setTerm d nidNew else g)) g
-  g.addNode { node with nid := nidNew }
+def Graph.renameNodeId (g : Graph κ) (nidCur nidNew : Int) : Except Err (Graph κ) :=
+  if !(dHas g.nodes nidCur) then .error .value
+  else if dHas g.nodes nidNew then .error .value
+  else do
+    let (node, g) ← g.removeNode nidCur
+    pyAssert (node.nid == nidCur)
+    let g ← [false, true].foldlM (fun g d => do
+      let g ← (node.eids d).foldlM (fun g eid =>
+        g.modifyEdge eid (fun e => do
+          pyAssert (e.nid (!d) == nidCur)
+          pure (e.setNid (!d) nidNew))) g
+      pure (if g.term d == nidCur then g.setTerm d nidNew else g)) g
+    g.addNode { node with nid := nidNew }
 
 /-- `rename_edge_id(eid_cur, eid_new)` -/
-def Graph.renameEdgeId (g : Graph κ) (eidCur eidNew : Int) : Except Err (Graph κ) := do
-  if !(dHas g.edges eidCur) then throw .value
-  if dHas g.edges eidNew then throw .value
-  let (edge, g) ← g.removeEdge eidCur
-  pyAssert (edge.eid == eidCur)
-  let g ← [false, true].foldlM (fun g d =>
-    g.modifyNode (edge.nid d) (fun n => n.renameEdgeId eidCur eidNew (!d))) g
-  g.addEdge { edge with eid := eidNew }
+def Graph.renameEdgeId (g : Graph κ) (eidCur eidNew : Int) : Except Err (Graph κ) :=
+  if !(dHas g.edges eidCur) then .error .value
+  else if dHas g.edges eidNew then .error .value
+  else do
+    let (edge, g) ← g.removeEdge eidCur
+    pyAssert (edge.eid == eidCur)
+    let g ← [false, true].foldlM (fun g d =>
+      g.modifyNode (edge.nid d) (fun n => n.renameEdgeId eidCur eidNew (!d))) g
+    g.addEdge { edge with eid := eidNew }
 
 /-- ids shared by two dictionaries, ascending -/
 def sharedKeys {α β : Type} (a : List (Int × α)) (b : List (Int × β)) : List Int :=
